@@ -114,6 +114,20 @@ Theorem C15_dec_ipv6_tc : forall tc, tc < 256 ->
 Proof. exact ipv6_tc_accessors. Qed.
 Print Assumptions C15_dec_ipv6_tc.
 
+(* the std::io read paths and from_bytes: same guarantee for every input *)
+Theorem C15_dec_read_ipv4 : forall reader, bytes_ok reader -> no_ub (Ipv4Header_read reader) v4_in_range.
+Proof. exact Ipv4Header_read_in_range. Qed.
+Print Assumptions C15_dec_read_ipv4.
+
+Theorem C15_dec_read_ipv6 : forall reader, bytes_ok reader -> no_ub (Ipv6Header_read reader) v6_in_range.
+Proof. exact Ipv6Header_read_in_range. Qed.
+Print Assumptions C15_dec_read_ipv6.
+
+Theorem C15_dec_from_bytes_vlan : forall a b c d, a < 256 -> b < 256 ->
+  no_ub (SingleVlanHeader_from_bytes a b c d) vlan_in_range.
+Proof. exact SingleVlanHeader_from_bytes_in_range. Qed.
+Print Assumptions C15_dec_from_bytes_vlan.
+
 (* the raw expressions of the decoders read exactly the RFC's bit ranges
    (complete sweeps over the one or two bytes they look at) *)
 Theorem C15_dec_bits_tci : forall a b, a < 256 -> b < 256 ->
